@@ -45,15 +45,15 @@ NEEDS = {
  "C20-2": "ASGI NextResponse tests more_body is False: final body message that omits the optional more_body key",
 }
 
-def wave2_needs():
-    """Second (hold-out) wave: keys Cxx-3 / Cxx-4 come from /tmp/seed/Cxx/SEED2/{patch,demo,result}{1,2}; the
-    'needs to manifest' text is the author's own paragraph from NOTES.md."""
+def wave2_needs(sub="SEED2", offset=2):
+    """Later waves: keys Cxx-3 / Cxx-4 come from /tmp/seed/Cxx/SEED2/{patch,demo,result}{1,2}, Cxx-5 / Cxx-6 from
+    SEED3; the 'needs to manifest' text is the author's own paragraph from NOTES.md."""
     import re
 
     out = {}
     for i in range(1, 21):
         pid = f"C{i:02d}"
-        p = f"/tmp/seed/{pid}/SEED2/NOTES.md"
+        p = f"/tmp/seed/{pid}/{sub}/NOTES.md"
         if not os.path.exists(p):
             continue
         secs = re.split(r"(?m)^## ", open(p).read())
@@ -70,7 +70,7 @@ def wave2_needs():
             head = re.sub(r"\s+", " ", sec.splitlines()[0]).strip()
             m = re.search(r"(?is)(\**_?\*?(what (is|it) )?need(s|ed)?\b.*?)(\n\s*\n|\Z)", sec)
             need = re.sub(r"\s+", " ", m.group(1)).strip(" *_") if m else ""
-            out[f"{pid}-{n + 2}"] = head + " :: " + need[:900]
+            out[f"{pid}-{n + offset}"] = head + " :: " + need[:900]
     return out
 
 
@@ -78,14 +78,16 @@ def main():
     out_root = "/verif/seeded"
     os.makedirs(out_root, exist_ok=True)
     rows = []
-    wave2 = "--wave2" in sys.argv
-    needs = wave2_needs() if wave2 else NEEDS
+    wave3 = "--wave3" in sys.argv
+    wave2 = "--wave2" in sys.argv or wave3
+    sub, offset = ("SEED3", 4) if wave3 else ("SEED2", 2)
+    needs = wave2_needs(sub, offset) if wave2 else NEEDS
     NEEDS.update(needs)
     for key in sorted(needs):
         pid, n = key.split("-")
-        src = f"/tmp/seed/{pid}/SEED2" if wave2 else f"/tmp/seed/{pid}/SEED"
+        src = f"/tmp/seed/{pid}/{sub}" if wave2 else f"/tmp/seed/{pid}/SEED"
         if wave2:
-            n = str(int(n) - 2)
+            n = str(int(n) - offset)
         res_path = f"{src}/result{n}.json"
         if not os.path.exists(res_path):
             print("missing", key); continue
@@ -98,7 +100,7 @@ def main():
             shutil.copy(f"{src}/NOTES.md", f"{d}/author_notes.md")
         meta = {
             "property": pid,
-            "wave": 2 if wave2 else 1,
+            "wave": 3 if wave3 else (2 if wave2 else 1),
             "origin": "fresh sub-agent given only the property text and its own scratch worktree of /repo (nothing from /verif)",
             "needs_to_manifest": NEEDS[key],
             "what_was_run": [
